@@ -6,6 +6,7 @@ import Driver.C13
 import Driver.C14
 import Driver.C12
 import Driver.Hand
+import Driver.Bcodec
 open Driver
 
 def dispatch (line : String) : Verdict :=
@@ -16,6 +17,8 @@ def dispatch (line : String) : Verdict :=
   | "C06" :: args => c06 args r
   | "C07" :: args => c07 args r
   | "C12" :: args => c12 args r
+  | "C15" :: args => c15 args r
+  | "C16" :: args => c16 args r
   | "C20" :: args => handVerdict "C20" args r
   | "C08" :: args => handVerdict "C08" args r
   | "C09" :: args => handVerdict "C09" args r
